@@ -51,4 +51,6 @@ VARIANTS += [
                                                       E(CP, "                nd = self.same_structure_ddiff(df[cols], ref_df[cols], diffs)", "                nd = self.same_structure_ddiff(replace_cats(df[cols]), replace_cats(ref_df[cols]), diffs)")],
       rule='C05-CATFIRST', key='sort_values'),
     M('C05', 'refactor-categoricals-converted-in-one-statement', E(CP, "        df = replace_cats(df)\n        ref_df = replace_cats(ref_df)\n", "        df = replace_cats(df)\n        ref_df = replace_cats(ref_df)\n"), kind='refactor'),
+    M('C05', 'strict-types-ignore-brackets', E(CP, "    if level is None or level == 'strict' or t1.name == t2.name:\n        return t1.name == t2.name", "    if level is None or level == 'strict' or t1.name == t2.name:\n        return t1.name.split('[')[0] == t2.name.split('[')[0]"), rule='C05-TYPELEVEL', key='types_match'),
+    M('C05', 'rows-counted-before-the-condition', E(CP, "        if condition:\n            df = df[condition(df)].reindex()\n            ref_df = ref_df[condition(ref_df)].reindex()\n\n        na, nr = len(df), len(ref_df)", "        na, nr = len(df), len(ref_df)\n        if condition:\n            df = df[condition(df)].reindex()\n            ref_df = ref_df[condition(ref_df)].reindex()\n"), rule='C05-ROWSAFTER', key='check_dataframe'),
 ]
